@@ -57,6 +57,9 @@ def specValidate (st : State) : Option Access :=
 def stepLine (st : State) (toks : List String) : State × String :=
   let f := fOf st.kind
   match toks with
+  | ["ps.relocate", b] =>
+    -- where the medium's window lies in the address space is invisible here: addresses are relative to it
+    if (parseNat b).isSome then (st, "ok") else (st, "bad-op")
   | ["ps.init", msize, fill, sumAddr, kind, init, dsize, buf] =>
     match msize.toNat?, parseHexNat fill, sumAddr.toNat?, parseNat init, dsize.toNat? with
     | some ms, some fl, some sa, some ini, some ds =>
